@@ -94,6 +94,30 @@ TABLE = {
     "S4-C16-bucket-contraction-dense": ("C16", "independent sub-agent (round 4)",
         "a second contraction nested inside a bucket that still holds a dense output layer; that index compressed in every operand",
         "C16 work-depends-on-dimension"),
+    "S5-C03-always-writes": ("C03", "independent sub-agent (round 5)",
+        "(a) a compressed output level with two more loop levels below it, one addend sparse at the middle level and dense at the inner one, the other the reverse, an empty slice; (b) a dense loop of length 0 directly below a compressed output level",
+        "C03 phantom (machine; zero-sized dimensions of the input plans: trigger b)"),
+    "S5-C04-sum-assemble-guard": ("C04", "independent sub-agent (round 5)",
+        "separate assemble; an addition containing a contraction (sum node) into an output with >= 2 compressed levels; an inner coordinate (not the first of its row) contributed only by a later term",
+        "missed twice (no such shape; then the machine reported the seeded kernel's boolean comparison as unsupported-node, an inconclusive verdict that also skipped the native history); C04 fault-oob-write-in-compute after the sum-order2 group, half-filled inputs, boolean (in)equality in IRMachine.tla and native histories for inconclusive kernels"),
+    "S5-C07-isclose-literals": ("C07", "independent sub-agent (round 5)",
+        "a float literal that is tiny but non-zero (<= 1e-12) or almost but not exactly one, in the IR / in the assignment text",
+        "C07 optimised-kernel-differs-on-float-inputs (tiny / almost-one literals were added to the inexact-literal group after reading the report: the exact dyadic machine cannot hold them, the native unoptimised-vs-optimised stage can)"),
+    "S5-C09-full-node-crd": ("C09", "independent sub-agent (round 5)",
+        "a compressed level whose node holds exactly `dimension` distinct indexes, one of them out of range",
+        "C09 out-of-range-not-rejected"),
+    "S5-C10-extra-named-like-target": ("C10", "independent sub-agent (round 5)",
+        "an extra keyword argument that carries the name of the assignment's target tensor",
+        "missed by construction before (the extra argument was always called zz9); C10 kernel-entered-on-inconsistent-arguments after the fault was added to CallProtocol.tla"),
+    "S5-C13-handles-in-method": ("C13", "independent sub-agent (round 5)",
+        "an output that outlives its compiled kernel (TensorMethod dropped, or evicted from the cache after 128 other kernels)",
+        "C13 freed-while-referenced / process dies (missed by construction before: no history ever dropped a kernel; the DropKernels action and a per-call TensorMethod for the reordered kind were added after reading the report)"),
+    "S5-C14-shared-scalar-operand": ("C14", "independent sub-agent (round 5)",
+        "two threads doing tensor-with-Python-number arithmetic with different numbers at the same time",
+        "C14 operator hammer rounds (same mechanism as S3-C11, written independently)"),
+    "S5-C15-format-mention-order": ("C15", "independent sub-agent (round 5)",
+        "every tensor given a format explicitly, in an order that differs from the order of appearance",
+        "missed by construction before (a request always listed its formats in one order); C15 text-not-a-pure-function after requests are also issued with the formats mentioned in reverse"),
 }
 
 
